@@ -26,7 +26,7 @@ RULE = ('E2 (Hypothesis rule-based state machine, history replayable from its st
         'distinct = distinct histories.')
 ASSUMPTIONS = ['operations not listed in the statement (merge, groupby ...) are not exercised', 'column order is not asserted']
 BUDGET = {'quick': {'stateful_shards': 16, 'stateful_examples': 800, 'steps': 8, 'min_evaluations': 300},
-          'thorough': {'stateful_shards': 16, 'stateful_examples': 12000, 'steps': 12, 'min_evaluations': 5000}}
+          'thorough': {'stateful_shards': 16, 'stateful_examples': 6000, 'steps': 12, 'min_evaluations': 2500}}
 LOG = []
 GEOMS = ['pts', 'polys', 'lines']
 KIND = {'pts': 'point', 'polys': 'polygon', 'lines': 'line'}
